@@ -1037,6 +1037,146 @@ def function_arguments(ctx, res, binary=None, env=None, sanitizer=False):
                 res.disagreements.append(dict(name='C11/directed:justify-width', case=c.info['e'], impl=got, model=exp))
 
 
+# ------------------------------------------------------------------------------ option values, query keywords, rules over periodic postings,
+# commodity value expressions, repetition
+
+INT_OPTIONS = ['--columns', '--head', '--tail', '--depth', '--seed', '--abbrev-len', '--account-width', '--amount-width', '--date-width',
+               '--payee-width', '--total-width', '--meta-width', '--forecast-years', '--prepend-width', '--trace']
+INT_VALUES = ['0', '-1', '1', '2147483647', '2147483648', '9223372036854775807', '1000000000000', 'x', '', '1.5', '1e9']
+
+
+def option_values(ctx, res, binary=None, env=None, sanitizer=False):
+    j = '2021/01/01 p\n  A  $1\n  B\n'
+    cases = []
+    # a pager that fails, succeeds, does not exist: the report is closed after main's try block
+    for pg in ('false', 'true', 'cat', '/nonexistent/pager', 'sh -c "exit 3"', 'sh -c "kill -9 $$"', '', 'cat -', 'head -c 1'):
+        for verb in ('bal', 'reg', 'print'):
+            cases.append(Case('option-value:--pager', j, [verb, '--force-pager', '--pager', pg] + NOW, info={}))
+    rb = GUARDS.get('repetition_bound')
+    for o in INT_OPTIONS:
+        for v in INT_VALUES:
+            for verb in (['reg'], ['bal']):
+                # the balance format repeats a character amount_width / prepend_width times (F176
+                # until repaired: one hanging probe only, each costs the whole time limit)
+                if not rb and verb == ['bal'] and o in ('--amount-width', '--prepend-width') and len(v) > 12 \
+                        and not (o == '--amount-width' and v.startswith('92')):
+                    continue
+                con = 'option-value:' + o + (':repetition' if o in ('--amount-width', '--prepend-width') else '')
+                cases.append(Case(con, j, verb + [o, v] + NOW, info={}))
+    for o, vals in (('--output', ['/nonexistent/dir/x', '/dev/full', '/', '']), ('--price-db', ['/nonexistent', '/', '/dev/null']),
+                    ('--sort', ['', '(', 'amount,', '-', 'x' * 5000]), ('--exchange', ['', ',', '$,', 'A:B', '!', '$!,EUR!']),
+                    ('--begin', ['', 'x', '9999/99/99', 'every day']), ('--now', ['', 'x', '0000/00/00']), ('--pivot', ['', ':', 'x' * 300]),
+                    ('--group-by', ['', '(', '1/0']), ('--payee', ['', '(', '1/0']), ('--account', ['', '(', '1/0']),
+                    ('--inject', ['', ',', 'x,']), ('--unrealized-gains', ['', ':']), ('--master-account', ['', ':', 'a::b']),
+                    ('--bold-if', ['(', '1/0']), ('--display', ['(', '1/0']), ('--only', ['(', '1/0']), ('--file', ['/', '/dev/null', '.'])):
+        for v in vals:
+            args = ['reg', o, v] + ([] if o == '--now' else NOW)
+            cases.append(Case('option-value:' + o, j, args, info={}))
+    run_cases(ctx, cases, 'optv', binary, env)
+    for c in cases:
+        res.evaluations += 1
+        res.count('option-value')
+        add_violations(res, c, judge(c, sanitizer))
+
+
+QUERY_TOKENS = ['A', '"A"', "'A'", '/A/', 'show', 'bold', 'for', 'since', 'until', 'and', 'or', 'not', '(', ')', 'expr', 'code', 'payee', 'note',
+                'account', 'meta', 'data', '=x', '#x', '%x', '@x', '2021', '"2021"', '"show"', "'for'", '"bold"', '"since"', "'until'", '/show/',
+                '"', "'", '/', '""', "''", '//', 'A=B', '%tag=val', '!', '&', '|', '\\', 'this month', '"this month"']
+
+
+def query_keywords(ctx, res, binary=None, env=None, sanitizer=False):
+    rng = ctx.rng
+    j = '2021/01/01 (c1) p  ; note\n  A  $1  ; tag: val\n  B\n'
+    seqs = []
+    kw = ['show', 'bold', 'for', 'since', 'until']
+    quoted = ['"show"', "'show'", '/show/', '"bold"', '"for"', "'since'", '"until"', '"A"', '""', '"2021"', '"this month"']
+    for k in kw:
+        for q in quoted:
+            seqs += [[k, q], ['A', k, q], [k, q, 'A'], [q, k, 'A'], [k, q, k, q], [k, 'A', q]]
+    for _ in range(ctx.scale(300, 3000)):
+        seqs.append([rng.choice(QUERY_TOKENS) for _ in range(rng.choice([1, 2, 2, 3, 4, 5]))])
+    cases = []
+    for i, sq in enumerate(seqs):
+        verb = ['reg', 'bal', 'print'][i % 3]
+        cases.append(Case('query-keyword', j, [verb] + sq + NOW, info=dict(q=sq)))
+        if i % 4 == 0:
+            cases.append(Case('query-keyword', j, ['query'] + sq, info=dict(q=sq)))
+            cases.append(Case('query-keyword', j, ['reg', '-l', 'true', '--'] + sq + NOW, info=dict(q=sq)))
+    run_cases(ctx, cases, 'qkw', binary, env)
+    for c in cases:
+        res.evaluations += 1
+        res.count('query-keyword')
+        add_violations(res, c, judge(c, sanitizer))
+
+
+def rule_predicates(ctx, res, binary=None, env=None, sanitizer=False):
+    """automated transactions are applied to the postings of periodic transactions too, and those have
+    no parent transaction: every identifier a predicate may use, over such postings"""
+    names = c11_buffers.scope_identifiers(lib.REPO)
+    res.extra['scope_identifiers'] = len(names)
+    if len(names) < 40:
+        res.disagreements.append(dict(name='C11/scope-identifiers', case='post.cc item.cc xact.cc account.cc', impl='%d names' % len(names), model='>= 40'))
+    preds = []
+    for n in names:
+        preds += ['expr %s' % n, 'expr %s =~ /x/' % n, 'expr %s > 0' % n, 'expr %s(amount > 0)' % n, 'expr xact.%s' % n, 'expr account.%s' % n,
+                  'expr post.%s' % n]
+    preds += ['#x', '=x', '@x', '%x', '%x=y', 'A', '/A/', 'expr any(code =~ /x/)', 'expr all(note =~ /x/, false)', 'expr has_tag(/x/)', 'expr tag("x")']
+    body = '~ Monthly\n  Expenses:Rent  $5\n  Assets\n\n~ Yearly  ; note\n  ; tag: v\n  Expenses:Tax  $50\n  Assets\n\n2021/01/15 (c) p  ; n\n  Expenses:Rent  $4\n  Assets\n'
+    cases = []
+    for i, pr in enumerate(preds):
+        jr = '= %s\n  (Rule)  1\n\n' % pr + body
+        verbs = [['bal'], ['reg', '--budget'], ['reg', '--forecast-while', 'd<[2021/06/01]'], ['budget']]
+        for v in (verbs if i % 5 == 0 else verbs[i % 4:i % 4 + 1]):
+            cases.append(Case('rule-over-periodic-posting', jr, v + ['--now', '2021/03/01'], info=dict(pred=pr)))
+    run_cases(ctx, cases, 'rule', binary, env)
+    for c in cases:
+        res.evaluations += 1
+        res.count('rule-over-periodic-posting')
+        add_violations(res, c, judge(c, sanitizer))
+
+
+def commodity_values(ctx, res, binary=None, env=None, sanitizer=False):
+    exprs = ['market(1 AAA, date)', 'market(amount, date)', 'market(1 AAA)', '5 EUR', 'amount * 2', 'market(1 BBB, date)', 'myval', 'myval(1)',
+             'market(market(1 AAA, date), date)', '1 AAA', '2 AAA', 'AAA', '(s, d, t -> market(1 AAA, d, t))', '(s, d, t -> 7 EUR)',
+             'total_expr', 'amount_expr', 'value_date', '1/0', '(', '', 'roundto(market(1 AAA, date), 2)']
+    cases = []
+    for e in exprs:
+        for other in ('', 'commodity BBB\n  value market(1 AAA, date)\n'):
+            head = 'define myval = market(1 AAA, date)\ncommodity AAA\n  value %s\n%sP 2021/01/01 AAA $2\nP 2021/01/01 BBB $3\n' % (e, other)
+            jn = head + '2021/01/02 p\n  A  3 AAA\n  A  1 BBB\n  B\n'
+            for a in (['bal', '-V'], ['bal', '-X', '$'], ['reg', '-V'], ['bal'], ['prices'], ['bal', '--market', '--historical']):
+                cases.append(Case('commodity-value-expression', jn, a + NOW, info=dict(e=e)))
+        # the same as a lot's valuation expression
+        jl = 'P 2021/01/01 AAA $2\n2021/01/02 p\n  A  3 AAA ((%s))\n  B\n' % e
+        for a in (['bal', '-V'], ['bal', '--lots'], ['print']):
+            cases.append(Case('lot-value-expression', jl, a + NOW, info=dict(e=e)))
+    run_cases(ctx, cases, 'cval', binary, env)
+    for c in cases:
+        res.evaluations += 1
+        res.count('commodity-value-expression')
+        add_violations(res, c, judge(c, sanitizer))
+
+
+def repetition(ctx, res, binary=None, env=None, sanitizer=False):
+    cases = []
+    rb = GUARDS.get('repetition_bound')
+    hanging = 0
+    for left in ('""', '"ab"', '(1, 2)', '(1, "a")', 'commodity($1)', '"x" * 3', '()', 'account'):
+        for n in FN_NUMBERS + ['524288', '524289', '1048576', '1048577', '100000000']:
+            if not rb and abs(int(n)) >= 100000000 and not n.startswith('-'):
+                hanging += 1
+                if hanging > 1:
+                    continue            # unbounded while F176 is unrepaired: one probe of the class
+            cases.append(Case('repetition', '2021/01/01 p\n  A  $1\n  B\n', ['eval', '%s * %s' % (left, n)], info={}))
+            if n in ('9223372036854775807', '1000000000000', '3') and (rb or n == '3'):
+                cases.append(Case('repetition', '2021/01/01 p\n  A  $1\n  B\n', ['reg', '--format', '%%(%s * %s)\\n' % (left, n)] + NOW, info={}))
+    run_cases(ctx, cases, 'rep', binary, env)
+    for c in cases:
+        res.evaluations += 1
+        res.count('repetition')
+        add_violations(res, c, judge(c, sanitizer))
+
+
 # ------------------------------------------------------------------------------ definitions that refer to themselves
 
 RECURSION_SHAPES = [
@@ -1660,6 +1800,10 @@ def sanitizer_tier(ctx, res, sites):
         aliases(ctx, sub, binary, env, sanitizer=True)
         uuid_duplicates(ctx, sub, binary, env, sanitizer=True)
         definition_recursion(ctx, sub, binary, env, sanitizer=True)
+        option_values(ctx, sub, binary, env, sanitizer=True)
+        query_keywords(ctx, sub, binary, env, sanitizer=True)
+        rule_predicates(ctx, sub, binary, env, sanitizer=True)
+        commodity_values(ctx, sub, binary, env, sanitizer=True)
         early_options(ctx, sub, binary, env, sanitizer=True)
         periods_s = lib.Result()
         nesting_light(ctx, sub, binary, env)
@@ -1717,9 +1861,11 @@ def run(ctx, light=False):
     phases = [('buffers', lambda: buffers(ctx, res, sites)), ('escapes', lambda: escapes(ctx, res)),
               ('nesting', lambda: nesting(ctx, res)), ('division', lambda: division(ctx, res)),
               ('periods', lambda: periods(ctx, res)), ('truncated', lambda: truncated(ctx, res)),
-              ('long_tokens', lambda: long_tokens(ctx, res)), ('formats', lambda: formats(ctx, res)), ('aliases', lambda: aliases(ctx, res)), ('uuid_duplicates', lambda: uuid_duplicates(ctx, res)), ('definition_recursion', lambda: definition_recursion(ctx, res)), ('early_options', lambda: early_options(ctx, res)),
+              ('long_tokens', lambda: long_tokens(ctx, res)), ('formats', lambda: formats(ctx, res)), ('aliases', lambda: aliases(ctx, res)), ('uuid_duplicates', lambda: uuid_duplicates(ctx, res)), ('definition_recursion', lambda: definition_recursion(ctx, res)), ('option_values', lambda: option_values(ctx, res)),
+              ('query_keywords', lambda: query_keywords(ctx, res)), ('rule_predicates', lambda: rule_predicates(ctx, res)),
+              ('commodity_values', lambda: commodity_values(ctx, res)), ('repetition', lambda: repetition(ctx, res)), ('early_options', lambda: early_options(ctx, res)),
               ('function_arguments', lambda: function_arguments(ctx, res)),
-              ('mutation', lambda: mutation(ctx, res, ctx.scale(8000, 16000)))]
+              ('mutation', lambda: mutation(ctx, res, ctx.scale(6000, 16000)))]
     if ctx.tier == 'thorough' and not light:
         phases.append(('sanitizer', lambda: sanitizer_tier(ctx, res, sites)))
     res.extra['phase_wall_s'] = {}
@@ -1745,6 +1891,11 @@ def search(ctx, broken):
         aliases(ctx, r)
         uuid_duplicates(ctx, r)
         definition_recursion(ctx, r)
+        option_values(ctx, r)
+        query_keywords(ctx, r)
+        rule_predicates(ctx, r)
+        commodity_values(ctx, r)
+        repetition(ctx, r)
         early_options(ctx, r)
         function_arguments(ctx, r)
         mutation(ctx, r, 6000, tag='srch')
